@@ -534,3 +534,73 @@ func c17Pipeline(c *core.Ctx, r *core.Reporter) {
 	}
 	_ = types.Typ
 }
+
+func init() {
+	register(&core.Rule{Name: "C17/FLOW-recovered", Props: []string{"C17"}, Min: 10,
+		Doc: "the value recovered from a panicking extension hook is only formatted, never made the receiver of a method call", Run: c17Recovered})
+}
+
+// c17Recovered: the recover blocks run outside any further recover. The recovered value is whatever the hook panicked
+// with; calling one of its methods (Error() after asserting it to error, String(), ...) runs user code again, and if
+// that panics the request is taken down and the remaining finish functions never run. Handing the value to fmt is
+// safe: fmt recovers panics of Error / String methods itself.
+func c17Recovered(c *core.Ctx, r *core.Reporter) {
+	per := map[string]int{}
+	for _, top := range c.LibFuncs() {
+		if top.Parent() != nil || !(strings.HasPrefix(top.Name(), "handleExtensions") || top.Name() == "addExtensionResults") {
+			continue
+		}
+		for _, fn := range core.WithAnon(top) {
+			core.Instrs(fn, func(in ssa.Instruction) {
+				call, ok := in.(*ssa.Call)
+				if !ok {
+					return
+				}
+				if b, ok := call.Call.Value.(*ssa.Builtin); !ok || b.Name() != "recover" {
+					return
+				}
+				per[top.Name()]++
+				key := fmt.Sprintf("%s/recover#%d", top.Name(), per[top.Name()])
+				if site, via := invokedOn(c, call, map[ssa.Value]bool{}, 0); site != nil {
+					r.Bad(key, site.Pos(), "the value recovered from a panicking hook in %s becomes the receiver of a method call (%s): that is the hook's own code running outside any recover — a panic value whose method panics (a typed-nil error, a wrapper around a nil error) escapes Do and the other extensions' finish functions are never called", top.Name(), via)
+				} else {
+					r.OK(key, call.Pos(), "the recovered value is only passed to fmt")
+				}
+			})
+		}
+	}
+}
+
+// invokedOn follows v through assertions, conversions, phis and arguments of library functions (three levels) and
+// returns the first interface method call that has it as receiver.
+func invokedOn(c *core.Ctx, v ssa.Value, seen map[ssa.Value]bool, depth int) (ssa.Instruction, string) {
+	if v == nil || seen[v] || depth > 3 || v.Referrers() == nil {
+		return nil, ""
+	}
+	seen[v] = true
+	for _, ref := range *v.Referrers() {
+		switch x := ref.(type) {
+		case *ssa.TypeAssert, *ssa.MakeInterface, *ssa.ChangeInterface, *ssa.ChangeType, *ssa.Phi, *ssa.Extract:
+			if site, via := invokedOn(c, x.(ssa.Value), seen, depth); site != nil {
+				return site, via
+			}
+		case ssa.CallInstruction:
+			cc := x.Common()
+			if cc.IsInvoke() && cc.Value == v {
+				return x, "." + cc.Method.Name() + "()"
+			}
+			callee := cc.StaticCallee()
+			if callee == nil || !c.IsLib(callee) || callee.Blocks == nil {
+				continue
+			}
+			for i, a := range cc.Args {
+				if a == v && i < len(callee.Params) {
+					if site, via := invokedOn(c, callee.Params[i], seen, depth+1); site != nil {
+						return site, via + " in " + callee.Name()
+					}
+				}
+			}
+		}
+	}
+	return nil, ""
+}
